@@ -34,6 +34,8 @@ def seed_list(tier):
                                   'tstep': 10000, 'kind': 'grid', 'masked': False}},
         {'kind': 'ioapi', 'rec': {'nt': 1, 'nl': 1, 'nr': 1, 'nc': 1, 'nv': 1, 'start': 1,
                                   'tstep': 10000, 'kind': 'bdy', 'masked': False}},
+        {'kind': 'ioapi', 'rec': {'nt': 2, 'nl': 1, 'nr': 2, 'nc': 2, 'nv': 1, 'start': 0,
+                                  'tstep': 10000, 'kind': 'grid', 'masked': False, 'arrorig': True}},
         {'kind': 'netcdf', 'file': {'lens': {'t': 2, 'z': 1, 'x': 3}, 'unl': True,
                                     'kinds': ['A', 'M', 'B', 'X', 'S']}, 'format': 'NETCDF4_CLASSIC'},
         {'kind': 'netcdf', 'file': {'lens': {'t': 1, 'z': 2, 'x': 2}, 'unl': False,
